@@ -21,4 +21,5 @@ let () =
   bytes_stream "m_query_escape" V.query_escape_url;
   bytes_stream "m_normalize" V.normalize_url;
   bytes_stream "m_html_escaped" V.html_escaped;
-  bytes_stream "m_coerce" V.coerce
+  bytes_stream "m_coerce" V.coerce;
+  bytes_stream "m_html_unescape" V.html_unescape
